@@ -245,7 +245,7 @@ func runScenario(s scenario) (out scenOut) {
 	}
 	select {
 	case <-done:
-	case <-time.After(20 * time.Second):
+	case <-time.After(180 * time.Second):
 		out.violation = "the loading call did not return"
 		return
 	}
@@ -354,7 +354,7 @@ func witnessD8() (violation string, inconclusive string) {
 	<-setDone
 	select {
 	case <-getDone:
-	case <-time.After(10 * time.Second):
+	case <-time.After(180 * time.Second):
 		return "the loading Get did not return", ""
 	}
 	if e, ok := c.GetEntryQuietly(k); ok && e.Value == vL {
